@@ -205,6 +205,28 @@ func main() {
 		}
 	}
 	e.SolveAll(16)
+	// arithmetic lemmas the SMT solvers cannot do: checked by Lean 4 + Mathlib (thorough tier)
+	leanNote := ""
+	if files, _ := filepath.Glob(filepath.Join(*verifDir, "engine", "lemmas", *prop+".*.lean")); len(files) > 0 {
+		if *tier == "thorough" {
+			for _, f := range files {
+				name := "lean." + strings.TrimSuffix(strings.TrimPrefix(filepath.Base(f), *prop+"."), ".lean")
+				o := &Obligation{Name: name, Kind: "lean", Clause: "Lean 4 + Mathlib proof in " + f, Status: "proved"}
+				cmd := exec.Command("lean", f)
+				out, err := cmd.CombinedOutput()
+				q := &Query{Result: "unsat", Solver: "lean-4.33.0", Out: trunc(string(out), 2000)}
+				if err != nil || strings.Contains(string(out), "error") {
+					o.Status = "failed"
+					q.Result = "error"
+				}
+				o.Queries = append(o.Queries, q)
+				e.obls = append(e.obls, o)
+			}
+			leanNote = fmt.Sprintf("%d Lean lemma file(s) checked", len(files))
+		} else {
+			leanNote = fmt.Sprintf("%d Lean lemma file(s) present, checked only in the thorough tier (the statements are axioms in the quick tier)", len(files))
+		}
+	}
 	// filter obligations by property tags
 	var mine []*Obligation
 	for _, o := range e.obls {
@@ -413,6 +435,7 @@ func main() {
 			"known_findings":           knownLines,
 			"generation_seconds":       tGen.Seconds(),
 			"contract_lines":           e.contracts.NLines,
+			"lean":                     leanNote,
 		}
 		if extraPath := filepath.Join(*verifDir, "notes", *prop+".json"); fileExists(extraPath) {
 			var extraM map[string]interface{}
